@@ -80,6 +80,17 @@ type Card struct {
 	// Hook lets a monitor replace the response bytes of one exchange (deviation
 	// strategies, fault injection); it gets the event just produced.
 	Hook func(ev *Event) []byte
+
+	// SelectEFStatus (default nil = conforming behaviour): asked for every SELECT EF (P1=02)
+	// with a two-byte identifier before the chip's own decision; when it returns ok, the chip
+	// answers sw (under secure messaging as the protected status) and the file becomes the
+	// current file only if sel is true and the chip stores it. Used for status sweeps.
+	SelectEFStatus func(fid uint16, stored bool) (sw uint16, sel bool, ok bool)
+	// ReadPolicy (default nil): asked for every READ BINARY that would deliver n > 0 bytes
+	// from offset off for a request of ne bytes (after the chunking policy above); returns
+	// how many bytes to deliver (clamped to 0..n) and the status (0 = keep the status).
+	// Used for chips that answer particular reads short or refuse a read once.
+	ReadPolicy func(off, ne, n int) (int, uint16)
 }
 
 func NewCard() *Card {
@@ -237,6 +248,14 @@ func (c *Card) doSelect(cmd *Cmd) ([]byte, uint16) {
 		}
 		fid := uint16(cmd.Data[0])<<8 | uint16(cmd.Data[1])
 		f, ok := c.files()[fid]
+		if c.SelectEFStatus != nil {
+			if sw, sel, over := c.SelectEFStatus(fid, ok); over {
+				if sel && ok {
+					c.cur, c.curSet, c.curFID = f, true, fid
+				}
+				return nil, sw
+			}
+		}
 		if !ok {
 			return nil, 0x6A82
 		}
@@ -317,6 +336,15 @@ func (c *Card) doReadBinary(cmd *Cmd) ([]byte, uint16) {
 	}
 	if c.ShortReadRNG != nil && n > 1 && cmd.Ne > c.ShortReadMinNe {
 		n = 1 + c.ShortReadRNG.IntN(n)
+	}
+	if c.ReadPolicy != nil {
+		m, psw := c.ReadPolicy(off, cmd.Ne, n)
+		if m < n {
+			n = max(m, 0)
+		}
+		if psw != 0 {
+			sw = psw
+		}
 	}
 	return append([]byte{}, c.cur[off:off+n]...), sw
 }
